@@ -28,5 +28,6 @@ def check(ctx, run):
     safety.panic_inventory(ctx, run, 'R02.8', ROOTS, floor=25, only=lambda p: p.startswith('parser::') or p.startswith('util::'))
     recursion.rrec(ctx, run, 'R02.9', ROOTS, {'document'}, 'recursion of the JSON parser on nesting depth', floor=1)
     textparser.r02_10(ctx, run)
+    textparser.r02_12(ctx, run, rule='R02.12')
     return report.finish(run, level='other', explanation=EXPLANATION,
                          assumptions=["fast_float2::parse is correctly rounded; str::parse::<u64/i64> is exact or Err (trusted)", "reviewed assumption table assume.json", "A3"])
